@@ -930,6 +930,30 @@ def extract_toggle(m):
     return res
 
 
+def toggle_sites(M):
+    """every place inside the package that flips the switch: calls of support_deprecated_rabbitmq and
+    stores to <module>.DEPRECATED_RABBITMQ_SUPPORT / global stores of that name outside the toggle itself"""
+    out = []
+    for k in sorted(M):
+        m = M[k]
+        for sc in m.scopes:
+            for n in sc['nodes']:
+                if isinstance(n, ast.Call):
+                    f = n.func
+                    nm = f.id if isinstance(f, ast.Name) else f.attr if isinstance(f, ast.Attribute) else None
+                    if nm == 'support_deprecated_rabbitmq':
+                        out.append('%s calls support_deprecated_rabbitmq (line %d)' % (sc['name'], n.lineno))
+                    if nm in ('setattr', 'globals', 'vars', '__setattr__') and 'DEPRECATED_RABBITMQ_SUPPORT' in usrc(n):
+                        out.append('%s: %s (line %d)' % (sc['name'], usrc(n)[:80], n.lineno))
+                if isinstance(n, ast.Attribute) and isinstance(n.ctx, (ast.Store, ast.Del)) \
+                        and n.attr == 'DEPRECATED_RABBITMQ_SUPPORT':
+                    out.append('%s stores %s (line %d)' % (sc['name'], usrc(n), n.lineno))
+                if isinstance(n, ast.Name) and isinstance(n.ctx, (ast.Store, ast.Del)) and n.id == 'DEPRECATED_RABBITMQ_SUPPORT' \
+                        and sc['kind'] == 'function' and sc['name'] != 'encode.support_deprecated_rabbitmq':
+                    out.append('%s stores %s (line %d)' % (sc['name'], n.id, n.lineno))
+    return out
+
+
 def extract_ladder(M):
     m = M['encode']
     env = guarded('encode int constants', {}, int_env, m.tree)
@@ -941,6 +965,7 @@ def extract_ladder(M):
                              guard_of, n, m, env) for n in GUARD_FNS]
     res.update(guarded('toggle', lambda e: {'toggleDefault': crash(e), 'toggleGlobal': crash(e),
                                             'legacyInitial': crash(e)}, extract_toggle, m))
+    res['toggleSites'] = guarded('toggle sites', lambda e: [crash(e)], toggle_sites, M)
     return res
 
 
@@ -961,7 +986,8 @@ def emit_ladder(d):
                   for g in d['guards']))
     body += ['def toggleDefault : String := %s' % lstr(d['toggleDefault']),
              'def toggleGlobal : String := %s' % lstr(d['toggleGlobal']),
-             'def legacyInitial : String := %s' % lstr(d['legacyInitial']), '']
+             'def legacyInitial : String := %s' % lstr(d['legacyInitial']),
+             'def toggleSites : List String := %s' % llist(lstr(x) for x in d['toggleSites']), '']
     return lfile('/repo/pamqp/encode.py', body)
 
 
